@@ -9,6 +9,7 @@ import cryptocheck
 import minthist
 import proofgate
 import tables
+import wallethist
 from core import tier, write_evidence
 
 ASSUME = ["SQLite gives per-call atomicity (a crash or a context switch happens between storage calls, not inside one)",
@@ -123,6 +124,40 @@ def c15():
 @reg("C16")
 def c16():
     return minthist.check("C16")
+
+
+@reg("C17")
+def c17():
+    return wallethist.check("C17")
+
+
+@reg("C08")
+def c08():
+    return wallethist.check("C08")
+
+
+@reg("C19")
+def c19():
+    return wallethist.check("C19", profile=["mint", "send", "receive", "melt", "checkmelt", "reclaim", "removespent", "rotate", "restore", "sendlocked"])
+
+
+@reg("C18")
+def c18():
+    t0 = time.time()
+    cov1, v1, _ = wallethist.check_send_cases("C18")
+    cov2, v2 = wallethist.check("C18", profile=["mint", "send", "sendlocked", "receive", "rotate"], fees=(0, 100, 250, 500, 1000, 2000), collect=True,
+                                num=30 if tier() == "quick" else 800)
+    cov = dict(cov1)
+    for k in ("states", "transitions", "traces_validated_against_impl", "evaluations", "distinct_nontrivial"):
+        cov[k] = cov1[k] + cov2[k]
+    cov["samples"] = cov1["samples"] + cov2["samples"][:1]
+    cov["histories"] = {k: cov2[k] for k in ("events_by_kind", "operations_ok", "operations_failed", "generator_constants")}
+    cov["tags_of_other_properties"] = sorted(set(cov1["tags_of_other_properties"]) | set(cov2["tags_of_other_properties"]))
+    cov["known_findings_seen"] = sorted(set(cov1["known_findings_seen"]) | set(cov2["known_findings_seen"]))
+    write_evidence("C18", "model_checking", cov, time.time() - t0, v1 + v2,
+                   ["wallet content is injected into the wallet store as genuine proofs obtained straight from the mint (hook VerifDB)",
+                    "honest mint, fees per keyset as configured"])
+    return 1 if (v1 + v2) else 0
 
 
 def replay(prop, path):
